@@ -1135,7 +1135,8 @@ var peerIDs = map[string]string{"hex": "a1b2c3d4e5", "colon": "peer:with:colons"
 var turnURLs = map[string]string{"turn:h:p": "turn:relay.example.test:3478", "turn://h:p": "turn://relay.example.test:3478",
 	"turns:h:p": "turns:relay.example.test:5349", "turns://h:p": "turns://relay.example.test:5349", "h:p": "relay.example.test:3478",
 	"turn:h:p?transport=tcp": "turn:relay.example.test:3478?transport=tcp", "turns:h:p?servername=x": "turns:10.1.2.3:5349?servername=relay.example.test",
-	"turn:h:p?transport=udp": "turn:relay.example.test:3478?transport=udp"}
+	"turn:h:p?transport=udp": "turn:relay.example.test:3478?transport=udp",
+	"turn:[v6]:p": "turn:[2001:db8::7]:3478", "turns://[v6]:p": "turns://[2001:db8::7]:5349", "[v6]:p": "[2001:db8::7]:3478"}
 
 // ConfigGrid: for every enumerated configuration start the real server and run the real client functions.
 func ConfigGrid(args []string) {
@@ -1298,6 +1299,20 @@ func ConfigGrid(args []string) {
 				}
 				if left || host.isDead() || recv.isDead() {
 					bad("peer_dropped_during_the_signaling_exchange", map[string]any{"host_closed": host.isDead(), "receiver_closed": recv.isDead(), "peer_left_seen": left})
+				}
+			}
+		}
+		// another host creates a session on the same server: the first session must go on admitting
+		if len(open) == 2 {
+			if _, _, _, e2 := clienthttp.CreateSession(ctx, srv.url, hostMax); e2 == nil {
+				if u3, e3 := app.VerifBuildWebSocketURL(srv.url, code, peer+"-late", "receiver", 0); e3 == nil {
+					c3, status3, d3 := dialWS(u3)
+					if d3 != nil && status3 == 404 {
+						bad("join_code_unknown_after_another_session_was_created", map[string]any{"status": status3})
+					}
+					if c3 != nil {
+						c3.conn.Close()
+					}
 				}
 			}
 		}
